@@ -299,6 +299,9 @@ pub fn pad<T: std::fmt::Display + CenterRightNumbers>(
     alignment: Align,
     precision: Option<usize>,
 ) -> String {
+    // A width or precision parameter of `format!` above u16::MAX panics.
+    let width = width.min(u16::MAX as usize);
+    let precision = precision.map(|p| p.min(u16::MAX as usize));
     let space = s.center_right_space(alignment, width);
     let mut result = match precision {
         None => match alignment {
